@@ -4,6 +4,8 @@ package main
 
 import (
 	"fmt"
+	"go/ast"
+	"go/constant"
 	"go/types"
 	"os"
 	"sort"
@@ -560,4 +562,167 @@ func ruleC16R5(c *Ctx) {
 	}
 	c.note("C16.R5: %d index/slice expressions in %d functions of the configuration loading tree: %d compiler-proved, %d engine-proved, %d reviewed", len(res), len(fns), nA, nB, nR)
 	c.floor("C16.R5", "index/slice expressions decided", len(res), 60)
+}
+
+// R6: no check of the loading / verification tree is made vacuous by its argument. A module function that tests
+// membership in, ranges over, measures or compares a parameter decides nothing when the caller passes a variable that
+// holds its zero value on every path (declared and never assigned — e.g. shadowed by `:=` in an inner block: in SSA the
+// argument is a constant although the source names a variable). For every such call in the tree the callee must not
+// read the parameter; a literal nil / "" / 0 in the source is the author's statement and is not examined; reviewed
+// exceptions are keyed by caller|callee|parameter.
+var c16R6Reviewed = map[string]string{}
+
+func init() {
+	register("C16", "C16.R6", ruleC16R6)
+}
+
+func ruleC16R6(c *Ctx) {
+	var rootsF []*ssa.Function
+	rootsF = append(rootsF, c.P.Fns("run.ParseConfigFile")...)
+	rootsF = append(rootsF, c.P.Fns(aNewLoaderCF)...)
+	reach := c.P.reachableFrom(rootsF, func(f *ssa.Function) bool { return !c.P.inUni[f] })
+	var fns []*ssa.Function
+	for f := range reach {
+		if c.P.inUni[f] && f.Blocks != nil {
+			fns = append(fns, f)
+		}
+	}
+	sort.Slice(fns, func(i, j int) bool { return anchorName(fns[i]) < anchorName(fns[j]) })
+	nCalls, nNil := 0, 0
+	// does f read its parameter p (range, index, len, lookup, or hand it to something that may)?
+	var reads func(f *ssa.Function, p *ssa.Parameter, depth int) bool
+	reads = func(f *ssa.Function, p *ssa.Parameter, depth int) bool {
+		if p.Referrers() == nil {
+			return false
+		}
+		for _, ref := range *p.Referrers() {
+			switch x := ref.(type) {
+			case *ssa.DebugRef:
+				continue
+			case *ssa.Store:
+				// spilled into a local: any load of the cell counts
+				if x.Val == ssa.Value(p) {
+					return true
+				}
+			case ssa.CallInstruction:
+				cc := x.Common()
+				if bi, ok := cc.Value.(*ssa.Builtin); ok {
+					switch bi.Name() {
+					case "len", "cap", "append", "copy":
+						return true
+					}
+					continue
+				}
+				g := cc.StaticCallee()
+				if g == nil || g.Blocks == nil || !c.P.inUni[g] || depth > 3 {
+					return true // slices.Index, strings.Join, an interface method …: reads it
+				}
+				for i, a := range cc.Args {
+					if a == ssa.Value(p) {
+						pi := i + len(g.Params) - len(cc.Args)
+						if pi >= 0 && pi < len(g.Params) && reads(g, g.Params[pi], depth+1) {
+							return true
+						}
+					}
+				}
+			default:
+				return true // range, index, lookup, slice, phi, comparison, conversion …
+			}
+		}
+		return false
+	}
+	for _, fn := range fns {
+		for _, site := range callsIn(fn) {
+			cc := site.Common()
+			nCalls++
+			for i, a := range cc.Args {
+				k, ok := a.(*ssa.Const)
+				if !ok || !isZeroValueConst(k) {
+					continue
+				}
+				// the source argument is a variable (not a literal, not a declared constant): it holds its zero value on every path
+				e, info := c.P.callArgExpr(site, i)
+				id, isID := e.(*ast.Ident)
+				if !isID || info == nil {
+					continue
+				}
+				if _, isVar := info.Uses[id].(*types.Var); !isVar {
+					continue
+				}
+				for _, cal := range c.P.callees(site) {
+					if cal.Blocks == nil || !c.P.inUni[cal] {
+						continue
+					}
+					pi := i + len(cal.Params) - len(cc.Args)
+					if pi < 0 || pi >= len(cal.Params) {
+						continue
+					}
+					nNil++
+					p := cal.Params[pi]
+					construct := "never-assigned variable " + id.Name + " passed as " + p.Name() + " of " + anchorName(cal)
+					key := anchorName(fn) + "|" + anchorName(cal) + "|" + p.Name()
+					if why, ok := c16R6Reviewed[key]; ok {
+						c.assumed("C16.R6", fn, construct, site.Pos(), "reviewed: "+why)
+						continue
+					}
+					if os.Getenv("SLOGCHECK_F6KEYS") != "" {
+						fmt.Printf("R6KEY16 %q: \"\",\n", key)
+					}
+					c.check(!reads(cal, p, 0), "C16.R6", fn, construct, site.Pos(),
+						"the callee does not read the parameter",
+						"the variable holds its zero value on every path (declared, never assigned — typically because an inner `:=` shadows it) and the callee reads the parameter (membership test, range, length, comparison): the check it performs decides nothing. A configuration the check should reject is accepted and fails later, at construction")
+				}
+			}
+		}
+	}
+	c.floor("C16.R6", "calls examined in the loading / verification tree", nCalls, 200)
+	c.count("C16.R6:never-assigned variables passed to module functions", nNil)
+	c.ok("C16.R6", nil, "no check is made vacuous by a nil argument", 0, fmt.Sprintf("%d calls in %d functions examined, %d never-assigned variables passed to module functions", nCalls, len(fns), nNil))
+}
+
+// callArgExpr: the source expression of argument i (SSA numbering: the receiver of a static method call is argument 0)
+// of the call instruction, or nil when it cannot be located
+func (P *Prog) callArgExpr(site ssa.CallInstruction, i int) (ast.Expr, *types.Info) {
+	pos := site.Pos()
+	if !pos.IsValid() {
+		return nil, nil
+	}
+	var found *ast.CallExpr
+	var info *types.Info
+	for _, pkg := range P.pkgByRel {
+		for _, f := range pkg.Syntax {
+			if f.Pos() <= pos && pos <= f.End() {
+				ast.Inspect(f, func(n ast.Node) bool {
+					if ce, ok := n.(*ast.CallExpr); ok && ce.Lparen == pos {
+						found, info = ce, pkg.TypesInfo
+						return false
+					}
+					return found == nil
+				})
+			}
+		}
+	}
+	if found == nil {
+		return nil, nil
+	}
+	ai := i - (len(site.Common().Args) - len(found.Args))
+	if ai < 0 || ai >= len(found.Args) {
+		return nil, nil
+	}
+	return found.Args[ai], info
+}
+
+func isZeroValueConst(k *ssa.Const) bool {
+	if k.Value == nil {
+		return true // nil, or the zero value of an aggregate
+	}
+	switch k.Value.Kind() {
+	case constant.Bool:
+		return !constant.BoolVal(k.Value)
+	case constant.String:
+		return constant.StringVal(k.Value) == ""
+	case constant.Int, constant.Float, constant.Complex:
+		return constant.Sign(k.Value) == 0
+	}
+	return false
 }
